@@ -150,18 +150,46 @@ func checkC16(c *Ctx) (string, error) {
 		s := strings.ReplaceAll(nodeText(vp.Body.List[0]), " ", "")
 		req(strings.Contains(s, `pattern!="."`) && strings.Contains(s, "fs.ValidPath(pattern)"), "ValidPattern = not '.' and fs.ValidPath", vp.Pos(), s, "ValidPattern is "+s)
 	}
-	// all: prefix controls the hidden-file filter
-	allSet := false
+	// all: prefix controls the hidden-file filter, per pattern
+	allSet, allWhy := false, "the all: prefix is not handled"
+	allScoped, scopeWhy := false, "no per-pattern `all` flag found"
+	var patLoop *ast.RangeStmt
 	ast.Inspect(rp.Body, func(n ast.Node) bool {
-		if is, ok := n.(*ast.IfStmt); ok && strings.Contains(exprStr(is.Cond), `strings.HasPrefix(pat, "all:")`) {
-			s := strings.ReplaceAll(nodeSrc(is.Body), " ", "")
-			if strings.Contains(s, "all=true") && strings.Contains(s, `pat=strings.TrimPrefix(pat,"all:")`) {
-				allSet = true
-			}
+		if r, ok := n.(*ast.RangeStmt); ok && patLoop == nil && exprStr(r.X) == "patterns" {
+			patLoop = r
 		}
 		return true
 	})
-	req(allSet, "all: prefix recognised and stripped", rp.Pos(), "sets all and strips the prefix", "the all: prefix is not handled")
+	if patLoop != nil {
+		src := strings.ReplaceAll(nodeSrc(patLoop.Body), " ", "")
+		hasPrefixForm := strings.Contains(src, `ifstrings.HasPrefix(pat,"all:")`) && strings.Contains(src, "all=true") && strings.Contains(src, `pat=strings.TrimPrefix(pat,"all:")`)
+		cutForm := strings.Contains(src, `strings.CutPrefix(pat,"all:")`) && (strings.Contains(src, "all=true") || strings.Contains(src, ",all=strings.CutPrefix") || strings.Contains(src, ",all:=strings.CutPrefix")) && (strings.Contains(src, "pat=rest") || strings.Contains(src, "pat,all=strings.CutPrefix") || strings.Contains(src, "pat,all:=strings.CutPrefix") || strings.Contains(src, "pat,_=strings.CutPrefix"))
+		if hasPrefixForm || cutForm {
+			allSet = true
+		} else {
+			allWhy = "the all: prefix is not recognised and stripped in a known form: " + src[:min(len(src), 160)]
+		}
+		// scope: the flag is declared inside the patLoop body, or unconditionally reset by a direct statement of the body
+		for _, st := range patLoop.Body.List {
+			switch x := st.(type) {
+			case *ast.AssignStmt:
+				for _, l := range x.Lhs {
+					if id, ok := l.(*ast.Ident); ok && id.Name == "all" {
+						allScoped = true
+					}
+				}
+			case *ast.DeclStmt:
+				if strings.Contains(exprStr2(x), "all") {
+					allScoped = true
+				}
+			}
+		}
+		if !allScoped {
+			scopeWhy = "`all` is declared outside the pattern loop and never reset at the top of an iteration: once one pattern carries all:, every later pattern of the directive also includes hidden and underscore files"
+		}
+	}
+	req(allSet, "all: prefix recognised and stripped", rp.Pos(), "sets all and strips the prefix", allWhy)
+	req(allScoped, "all: applies to its own pattern only", rp.Pos(), "flag declared or reset in every iteration of the pattern patLoop", scopeWhy)
 	req(hasUse(ru, "internal/goembed.CheckPath", "error") != nil, "every match validated by CheckPath", rp.Pos(), "CheckPath error rejects", "glob matches are accepted without the per-path checks")
 	// regular-file test on matches; irregular rejected
 	okReg := false
@@ -472,4 +500,15 @@ func init() {
 	addMutant(Mutant{Prop: "C16", Name: "split-first-slash", File: g, Old: "\tif idx := strings.LastIndexByte(name, '/'); idx >= 0 {", New: "\tif idx := strings.IndexByte(name, '/'); idx >= 0 {", Expect: "R16.2 embedSplit"})
 	addMutant(Mutant{Prop: "C16", Name: "fs-sort-dir-only", File: g, Old: "\t\tif di != dj {\n\t\t\treturn di < dj\n\t\t}\n\t\treturn ei < ej", New: "\t\t_, _ = ei, ej\n\t\treturn di < dj", Expect: "R16.2 BuildFSEntries comparator"})
 	addMutant(Mutant{Prop: "C16", Name: "multi-var-accepted", File: g, Old: "\t\t\t\tif len(spec.Names) != 1 {\n\t\t\t\t\tpos := positionFor(fset, spec.Pos())\n\t\t\t\t\treturn nil, fmt.Errorf(\"%s: go:embed cannot apply to multiple vars\", pos)\n\t\t\t\t}\n", New: "", Expect: "R16.3 directive on several variables"})
+}
+
+func exprStr2(n ast.Node) string {
+	var sb strings.Builder
+	ast.Inspect(n, func(x ast.Node) bool {
+		if id, ok := x.(*ast.Ident); ok {
+			sb.WriteString(id.Name + " ")
+		}
+		return true
+	})
+	return sb.String()
 }
